@@ -512,6 +512,7 @@ func (f *Frame) execConvert(cur *blockCur, x *ssa.Convert) {
 		ref := f.freshRef(cur, f.prefixSym()+x.Name()+"_bytes")
 		k := c.so.heapArr(types.Typ[types.Byte])
 		arr := c.declare(f.prefixSym()+x.Name()+"_arrv", fmt.Sprintf("(Array %s %s)", c.so.idxSort(), c.so.sortOf(types.Typ[types.Byte])))
+		c.byteHeapAxiom(k, arr, true)
 		if c.mode == ModeInt {
 			cur.assume(fmt.Sprintf("(forall ((i Int)) (! (=> (and (<= 0 i) (< i (slen %s))) (= (select %s i) (sat %s i))) :pattern ((select %s i))))", v.S, arr, v.S, arr))
 			// string([]byte(s)) == s
@@ -576,7 +577,10 @@ func (c *FuncCtx) bytesToStr(heap, sl string) string {
 		c.needed["str_of_bytes_ax"] = true
 		if c.mode == ModeInt {
 			c.axiom(fmt.Sprintf("(forall ((a %s) (o Int) (n Int)) (! (=> (>= n 0) (= (slen (str_of_bytes a o n)) n)) :pattern ((str_of_bytes a o n))))", byteArr), "str_of_bytes")
-			c.axiom(fmt.Sprintf("(forall ((a %s) (o Int) (n Int) (i Int)) (! (=> (and (<= 0 i) (< i n)) (= (sat (str_of_bytes a o n) i) (select a (+ o i)))) :pattern ((sat (str_of_bytes a o n) i))))", byteArr), "str_of_bytes")
+// the array may be ANY array of integers as far as the logic is concerned: only its elements that are bytes are
+			// recovered as such (an unguarded equation contradicts 0 <= sat < 256); byte heaps of the program hold bytes
+			// (byteHeapAxiom), so for them the guard is always met
+			c.axiom(fmt.Sprintf("(forall ((a %s) (o Int) (n Int) (i Int)) (! (=> (and (<= 0 i) (< i n) (<= 0 (select a (+ o i))) (< (select a (+ o i)) 256)) (= (sat (str_of_bytes a o n) i) (select a (+ o i)))) :pattern ((sat (str_of_bytes a o n) i))))", byteArr), "str_of_bytes")
 		}
 	}
 	return fmt.Sprintf("(str_of_bytes (select %s (s_ref %s)) (s_off %s) (s_len %s))", heap, sl, sl, sl)
